@@ -1024,6 +1024,10 @@ class Interp:
                 return {'<': a < b, '<=': a <= b, '>': a > b, '>=': a >= b}[sym]
             except TypeError:
                 raise PyRaise(TypeError)
+        if is_strlike(a) and is_strlike(b):
+            # python orders str by code points, lexicographically: the same order as SMT-LIB str.< / str.<=
+            za, zb = str_z3(a), str_z3(b)
+            return bool_value({'<': za < zb, '<=': za <= zb, '>': zb < za, '>=': zb <= za}[sym])
         if a is None or b is None or (kind_of(a) != kind_of(b) and {kind_of(a), kind_of(b)} != {'int', 'float'}):
             if kind_of(a) in ('obj', 'opaque', 'other') or kind_of(b) in ('obj', 'opaque', 'other'):
                 self.unsupported("ordering comparison on objects", node)
